@@ -354,6 +354,11 @@ func cmdCheck(args []string) int {
 	as = append(as, "nil-pointer dereference of receivers/pointer parameters is not checked", "out-of-memory, stack exhaustion and goroutine scheduling are outside the model",
 		"Go integers are modelled exactly (wrap-around for unsigned, overflow obligation for signed); floating point is uninterpreted")
 	as = append(as, w.propertyNotes(*prop)...)
+	for _, rl := range w.Specs.Relies {
+		if strings.HasPrefix(rl, *prop+" ") || strings.HasPrefix(rl, "all ") {
+			as = append(as, "assumed: "+strings.TrimSpace(rl[strings.Index(rl, " "):]))
+		}
+	}
 	sort.Strings(as)
 	wall := time.Since(t0).Seconds()
 	ev := map[string]any{
